@@ -73,7 +73,16 @@ int redirect_path(int *child, REPROC_STREAM stream, const char *path)
     return -errno;
   }
 
-  *child = r;
+  int fd = r;
+
+  // See `pipe_init`.
+  r = handle_above_std(&fd);
+  if (r < 0) {
+    handle_destroy(fd);
+    return r;
+  }
+
+  *child = fd;
 
   return 0;
 }
